@@ -81,7 +81,7 @@ ALPHABET = [
     ("chmod", "a"), ("chmod", "x"),
     ("addfile", "n", b"n1\n"), ("adddir", "e"), ("addfile", "e/n", b"n1\n"), ("addlink", "m", "a"),
     ("unknown", "u", b"u1\n"),
-    ("remove", "a"), ("remove", "d/b"), ("remove", "l"), ("remove", "d"),
+    ("remove", "a"), ("remove", "d/b"), ("remove", "l"), ("remove", "d"), ("remove", "x"),
     ("unversion", "d/b"), ("rmdisk", "a"),
     ("rename", "a", "c"), ("rename", "d/b", "b"), ("rename", "a", "d/a"), ("rename", "d", "e"), ("rename", "l", "k"),
     ("rename", "x", "a"),
